@@ -1,2 +1,2 @@
--- stub: replaced by the family's driver
-def main : IO Unit := IO.println "family capi: no driver yet"
+import PrimitivModel.Driver.CapiDrv
+def main : IO Unit := Primitiv.Drv.CapiDrv.main
